@@ -2,7 +2,7 @@
    and the in-Coq cross-check (cases.v, vm_compute) both call. *)
 From Coq Require Import List NArith Bool.
 Import ListNotations.
-From RV Require Import Base.Str Base.PathLex Path.Clean Path.CleanSpec.
+From RV Require Import Base.Str Base.PathLex Path.Clean Path.CleanSpec Path.Relative.
 
 Definition api_components := components.
 Definition api_push := push.
@@ -17,3 +17,20 @@ Definition api_clean := clean.
 Definition api_go_clean := go_clean.
 Definition api_clean_spec := clean_spec.
 Definition api_normal_form_b := normal_form_b.
+
+(* ---- C16 ---- *)
+Definition api_relative := relative.
+Definition names_of (s : list N) : list (list N) :=
+  flat_map (fun c => match c with CNormal n => [n] | _ => [] end) (components s).
+(* the spec's answer for clean absolute arguments *)
+Definition api_relative_spec (p b : list N) : list N :=
+  if path_eqb p b then p else render (relative_spec (names_of p) (names_of b)).
+(* the property's own checker, applied to an implementation result r *)
+Definition api_relative_check (p b r : list N) : bool :=
+  if path_eqb p b then str_eqb (push b r) p
+  else
+    let cs := components r in
+    let k := length (snd (strip_common (names_of p) (names_of b))) in
+    negb (is_absolute r)
+    && comps_eqb cs (repeat CParent k ++ filter (fun c => match c with CNormal _ => true | _ => false end) cs)
+    && str_eqb (clean_spec (push b r)) p.
